@@ -98,6 +98,7 @@ func SeqProfileFor(name string, seed int64) SeqProfile {
 			{"b", "bool", "", "bool"}, {"e", "enum", "", "enum"}, {"t", "tok", "", numRepr()}}
 		p.Idx = []IdxDesc{{"big", "a", "ge", 5}}
 		p.Replica = true
+		p.Chain = r.Intn(2) == 0
 		p.Lag = []float64{0, 0.5, 0.85}[r.Intn(3)]
 		p.PRollback, p.PFailIns = 0.1, 0.05
 		p.Prologue = []string{"", "block1", "three"}[r.Intn(3)]
